@@ -178,6 +178,39 @@ pub fn exec(ctx: &Ctx, st: &mut State, op: &str) -> String {
                 _ => out.push_str("T err\n"),
             }
         }
+        "tupdrm" => {
+            // one batch with the "updated tours first" overlay: v1 gets a new tour, then v2 leaves
+            // the transition: O tupdrm r v1 d1 v2
+            let r: usize = t[1].parse().unwrap();
+            let (tr, detached) = st.regs[&r].clone();
+            let old_tours = st.tours.clone();
+            let (v1, v2) = (parse_veh(t[2]), parse_veh(t[4]));
+            let d1 = ctx.n(t[3].parse().unwrap());
+            let old = old_tours.get(&v1).unwrap().clone();
+            let n1 = if nw.node(d1).is_start_depot() { old.replace_start_depot(d1) } else { old.replace_end_depot(d1) };
+            match n1 {
+                Ok(n1) => {
+                    let res = guarded(|| {
+                        let mut updated: ImHashMap<VehicleIdx, &Tour> = ImHashMap::new();
+                        let t1 = tr.update_vehicle(v1, &n1, &updated, &old_tours, &nw);
+                        updated.insert(v1, &n1);
+                        t1.remove_vehicle(v2, &updated, &old_tours, &nw)
+                    });
+                    match res {
+                        Ok(ntr) => {
+                            out.push_str(&format!("T tour {} {}\n", veh_tok(v1), ctx.tour_line(&n1)));
+                            st.tours.insert(v1, n1);
+                            dump_reg(&mut out, id, &ntr, st.vt);
+                            let mut det = detached;
+                            det.push(v2);
+                            st.regs.insert(id, (ntr, det));
+                        }
+                        Err(site) => out.push_str(&format!("T panic {}\n", site)),
+                    }
+                }
+                _ => out.push_str("T err\n"),
+            }
+        }
         "tsucc" => {
             let r: usize = t[1].parse().unwrap();
             let v = parse_veh(t[2]);
@@ -290,7 +323,11 @@ pub fn generate(ctx: &Ctx, rng: &mut Rng, n_ops: u64) -> String {
                     let others: Vec<VehicleIdx> = if cyc.len() >= 2 && rng.chance(80) { cyc.into_iter().filter(|x| *x != v).collect() } else { members.iter().copied().filter(|x| *x != v).collect() };
                     let v2 = *rng.pick(&others);
                     let d2 = if rng.chance(50) { 2 * rng.below(nd) + 1 } else { 2 * rng.below(nd) };
-                    do_op(&mut st, &mut s, format!("tupdate2 {} {} {} {} {}", r, veh_tok(v), d, veh_tok(v2), d2));
+                    if rng.chance(35) {
+                        do_op(&mut st, &mut s, format!("tupdrm {} {} {} {}", r, veh_tok(v), d, veh_tok(v2)));
+                    } else {
+                        do_op(&mut st, &mut s, format!("tupdate2 {} {} {} {} {}", r, veh_tok(v), d, veh_tok(v2), d2));
+                    }
                 } else {
                     do_op(&mut st, &mut s, format!("tupdate {} {} {}", r, veh_tok(v), d));
                 }
@@ -345,6 +382,7 @@ pub fn rerun(ctx: &Ctx, text: &str) -> String {
                 let members: Vec<VehicleIdx> = tr.cycles_iter().flat_map(|c| c.iter()).collect();
                 let ok = match t[0] {
                     "tmove" | "tremove" | "tsucc" | "tupdate" => members.contains(&parse_veh(t[2])) && (t[0] != "tupdate" || detached.is_empty()),
+                    "tupdrm" => members.contains(&parse_veh(t[2])) && members.contains(&parse_veh(t[4])) && t[2] != t[4] && detached.is_empty(),
                     "tupdate2" => members.contains(&parse_veh(t[2])) && members.contains(&parse_veh(t[4])) && t[2] != t[4] && detached.is_empty(),
                     "taddend" | "taddown" => detached.contains(&parse_veh(t[2])),
                     "t3opt" => detached.is_empty(),
